@@ -36,12 +36,17 @@ impl Engine for SimEngine {
     fn strategy(&self, tier: Tier) -> BoxedStrategy<Self::Case> {
         let len = match tier {
             Tier::Quick => self.max_len,
-            Tier::Thorough => self.max_len * 3,
+            Tier::Thorough => self.max_len * 2,
         };
         sim::case_strategy(self.profile, len, self.eager_ratio)
     }
     fn quick_cases(&self) -> usize {
         self.quick
+    }
+    fn thorough_cases(&self) -> usize {
+        // 10x the histories at twice the length (about 25x the work of the quick tier), next to
+        // the systematic phase with 40-120x its quick budget
+        self.quick * 10
     }
     fn run(&self, case: &Self::Case) -> Outcome {
         let run = sim::execute(case);
@@ -105,7 +110,7 @@ impl Engine for RestoreEngine {
         1500
     }
     fn thorough_cases(&self) -> usize {
-        30000
+        20000
     }
     fn run(&self, case: &Self::Case) -> Outcome {
         let run = sim::execute_mode(case, sim::Mode::Restore);
